@@ -71,5 +71,5 @@ pub fn pick_program(ctx: &Ctx, max_depth: usize) -> Program {
         let k = ctx.pick("prog-op", N_OPS);
         ops.push(std_op(k, pos));
     }
-    Program { guid: "file-guid".into(), ops, xml_mode: 0, no_finalize: false }
+    Program { guid: "file-guid".into(), ops, ..Default::default() }
 }
